@@ -277,6 +277,8 @@ func buildShape(sp shapeSpec) (sdf.SDF3, bool, error) {
 		}
 	case "box":
 		s, err = sdf.Box3D(v3.Vec{X: p(0, 2), Y: p(1, 1.5), Z: p(2, 1)}, 0)
+	case "origin-sphere":
+		s, err = sdf.Sphere3D(p(0, 1))
 	case "rotbox":
 		s, err = sdf.Box3D(v3.Vec{X: p(0, 2), Y: p(1, 1.5), Z: p(2, 1)}, 0)
 		if err == nil {
@@ -587,6 +589,7 @@ func log2(n int) int {
 
 func check(c *Ctx, r *Report) error {
 	log.SetOutput(io.Discard) // the renderers print warnings
+	r.Trusted, r.Assumptions = []string{}, []string{}
 	rng := NewRng(c.Seed)
 	var cp corpus
 	if b, err := os.ReadFile(filepath.Join(c.Verif, "corpus", "C19.json")); err == nil {
@@ -666,6 +669,116 @@ func check(c *Ctx, r *Report) error {
 		}
 	}
 
+	// ---- the V1 lock step (dcBoundVertexPosition) against its float model, bit for bit
+	csb := &Cases{Kind: "bv", Imports: "From Sdfx Require Import Geo.DCVertexCorr.", Type: "DCVertexCorr.case_bv", Fn: "DCVertexCorr.mismatches_bv", PerShard: 400}
+	f3 := func(p v3.Vec) string { return "(" + CF(p.X) + ", " + CF(p.Y) + ", " + CF(p.Z) + ")" }
+	nb := TierN(c.Tier, 400, 6000, 1500)
+	if c.Replay != "" {
+		nb = 0
+	}
+	for k := 0; k < nb; k++ {
+		const cells = 8
+		mo := v3i.Vec{X: rng.Intn(cells), Y: rng.Intn(cells), Z: rng.Intn(cells)}
+		mn := v3.Vec{X: float64(mo.X), Y: float64(mo.Y), Z: float64(mo.Z)}
+		mx := mn.AddScalar(1)
+		coord := func(lo float64, class int) float64 {
+			switch class {
+			case 0: // strictly inside, dyadic
+				return lo + float64(1+rng.Intn(7))/8
+			case 1: // inside, full mantissa
+				return lo + rng.Float()
+			case 2: // exactly on the low face
+				return lo
+			case 3: // exactly on the high face
+				return lo + 1
+			case 4: // just below
+				return math.Nextafter(lo, -1)
+			case 5: // just above
+				return math.Nextafter(lo+1, 100)
+			case 6: // far away
+				return lo + rng.Uniform(-50, 50)
+			}
+			return math.NaN()
+		}
+		stratum := []string{"inside", "one-axis-out", "on-face", "just-outside", "far", "nan"}[k%6]
+		var q v3.Vec
+		cls := func() int { return rng.Intn(2) }
+		q = v3.Vec{X: coord(mn.X, cls()), Y: coord(mn.Y, cls()), Z: coord(mn.Z, cls())}
+		special := map[string][]int{"one-axis-out": {4, 5, 6}, "on-face": {2, 3}, "just-outside": {4, 5}, "far": {6}, "nan": {7}}[stratum]
+		if special != nil {
+			v := coord([]float64{mn.X, mn.Y, mn.Z}[k/6%3], special[rng.Intn(len(special))])
+			switch k / 6 % 3 {
+			case 0:
+				q.X = v
+			case 1:
+				q.Y = v
+			default:
+				q.Z = v
+			}
+		}
+		np := rng.Range(1, 6)
+		sum := v3.Vec{}
+		for i := 0; i < np; i++ {
+			sum = sum.Add(v3.Vec{X: coord(mn.X, cls()), Y: coord(mn.Y, cls()), Z: coord(mn.Z, cls())})
+		}
+		g := dc.VerifV1BoundVertex(cells, mo, q, sum, np)
+		id++
+		csb.Add(fmt.Sprintf("(%d%%N, %s, %s, %s, %s, %d%%Z, %s)", id, f3(mn), f3(mx), f3(q), f3(sum), np, f3(g)))
+		key := fmt.Sprintf("bv:%v|%x,%x,%x|%x,%x,%x|%d", mo, q.X, q.Y, q.Z, sum.X, sum.Y, sum.Z, np)
+		r.Case("v1-lock/"+stratum, key, stratum != "inside")
+		// direct oracle: the result lies in the cell (1 ulp slack for the rounded mean) unless the QEF position is NaN
+		if !isNaNV(q) {
+			lo, hi := mn.SubScalar(1e-12), mx.AddScalar(1e-12)
+			if g.X < lo.X || g.Y < lo.Y || g.Z < lo.Z || g.X > hi.X || g.Y > hi.Y || g.Z > hi.Z {
+				r.Violate(key, fmt.Sprintf("locked vertex %v outside its cell %v..%v (qef %v)", g, mn, mx, q), map[string]interface{}{"cell": mo, "q": q, "sum": sum, "n": np})
+			}
+		}
+	}
+	if err := csb.Write(c.Out); err != nil {
+		return err
+	}
+
+	if c.Replay != "" {
+		// re-run exactly the failing inputs recorded in a replay file of the driver
+		var rp struct {
+			FailingInputs []struct {
+				Key   string          `json:"key"`
+				Input json.RawMessage `json:"input"`
+			} `json:"failing_inputs"`
+		}
+		b, err := os.ReadFile(c.Replay)
+		if err != nil {
+			return err
+		}
+		if err := json.Unmarshal(b, &rp); err != nil {
+			return err
+		}
+		for _, fi := range rp.FailingInputs {
+			switch {
+			case strings.HasPrefix(fi.Key, "v1grid:"), strings.HasPrefix(fi.Key, "v2grid:"):
+				var sg signGrid
+				if err := json.Unmarshal(fi.Input, &sg); err != nil {
+					return err
+				}
+				if strings.HasPrefix(fi.Key, "v1grid:") {
+					v1Grid("replay", sg)
+				} else {
+					v2Grid("replay", sg)
+				}
+			case strings.HasPrefix(fi.Key, "render:"):
+				var rs renderSpec
+				if err := json.Unmarshal(fi.Input, &rs); err != nil {
+					return err
+				}
+				checkRender(r, "replay", rs)
+			}
+		}
+		if err := cs1.Write(c.Out); err != nil {
+			return err
+		}
+		return cs2.Write(c.Out)
+	}
+
 	for _, sg := range cp.GridsV2 {
 		v2Grid("corpus", sg)
 	}
@@ -742,9 +855,27 @@ func check(c *Ctx, r *Report) error {
 		checkRender(r, rs.Renderer+"/"+name, rs)
 	}
 
+	// lattice-aligned surfaces: faces, edges and sphere poles exactly on lattice planes / points (field value 0 there)
+	for k, al := range []shapeSpec{
+		{Name: "box", Params: []float64{2, 2, 2}, Margin: [6]float64{.5, .5, .5, .5, .5, .5}},
+		{Name: "box", Params: []float64{2, 1, 1}, Margin: [6]float64{.25, .5, .5, .25, .5, .5}},
+		{Name: "origin-sphere", Params: []float64{1}, Margin: [6]float64{.5, .5, .5, .5, .5, .5}},
+		{Name: "origin-sphere", Params: []float64{1}, Margin: [6]float64{.25, .25, .25, .25, .25, .25}},
+	} {
+		for _, cells := range []int{4, 8, 16} {
+			if k == 1 {
+				cells = cells * 3 / 2
+			}
+			checkRender(r, "aligned/v1/"+al.Name, renderSpec{Shape: al, Renderer: "v1", Cells: cells})
+			checkRender(r, "aligned/v2/"+al.Name, renderSpec{Shape: al, Renderer: "v2", Cells: cells, FarAway: 0.499999, CenterPush: 0.01})
+			checkRender(r, "aligned/v2/"+al.Name, renderSpec{Shape: al, Renderer: "v2", Cells: cells, FarAway: 0.5, CenterPush: 0.1})
+		}
+	}
+
 	r.Rule = "grid cases: sign assignments on small lattices (V2: 1..7 cells per axis, V1: octree depth 1..3, 4 in the long tiers) in strata empty / single solid point / sparse / half / dense / full interior / checkerboard / union of boxes (all with outside boundary) and boundary-solid (outside the class, correspondence only), realised by a trilinear lattice field and rendered by the real code; the triangle list in cell indices is compared, in order, with the Gallina model evaluated on the same grid; non-trivial = at least one triangle, distinct by (lattice size, sign bits). render cases: sphere, box, rotated box, rounded box, box minus sphere, cylinder minus cylinder, union of spheres, each in an asymmetrically enlarged box, 6..27 (40) cells, V1 (lock on, no simplification, three rcond values) and V2 (FarAway in {0.25,0.4,0.499999,0.5}, CenterPush in {0.01,0.1,1}); non-trivial = produced triangles, distinct by full parameter record."
 	r.Trusted = append(r.Trusted,
 		"hand models coq/Algo/DCModel.v of generateTriangles and of contourCellProc/FaceProc/EdgeProc/ProcessEdge over the regenerated tables, tied by differential execution on sign grids (cases_v1_*.v, cases_v2_*.v, exact order)",
+		"float model of dcBoundVertexPosition (coq/Geo/DCVertex.v at Coq primitive floats) compared bit for bit through the hook (cases_bv_*.v); the V2 far-away clamp is inside placeVertex and only observed through the vertex oracle",
 		"hooks render/dc/verif_hooks_c19.go (V1: repeat the first lines of Render, then the real generateVertexIndices/contourCellProc; V2: real placeVertices/generateTriangles on a vertex buffer holding cell indices)",
 		"QEF / SVD (gonum), ray cast and bisection are oracles: only the containment of their result is checked (direct oracle on every vertex) and proved for the lock/clamp step",
 		"Go oracles of this harness: directed-edge balance after identifying bit-equal vertices, signed volume, |f(v)| <= cell diagonal, vertex in a lattice cell with a sign change")
@@ -752,6 +883,5 @@ func check(c *Ctx, r *Report) error {
 		"the SDF is deterministic and outside (>= 0) on the boundary of the sampled box and beyond (V1 samples the padding of the power-of-two octree outside the box)",
 		"V2 drops both triangles of a quad when two of its vertices coincide exactly (Degenerate(0)); the closedness theorem is about the index mesh, the position mesh is checked by the direct oracle on every render case",
 		"V1 octree traversal: proved equal to the dual mesh for depth <= 3 and every sign assignment, compared with the model at depth 1..4, general depth not proved (v1_traversal_partial)")
-	_ = strings.Join
 	return nil
 }
